@@ -9,6 +9,9 @@
 // P<t> thread t, executing Monitor::set, got the monitor's mutex in this move and stands at the unlock (the critical
 // section of set() has been passed, whether or not the flag changed value) - used only to know which waiters were
 // already blocked when a set() took effect.
+// Thread::start is driven in both public forms: start(proc, param) for even child ids, the member-function template
+// start(obj, &X::method) (Thread.hpp: Call<uint>::Member<X>::Func0 stored in Thread::func, thread routine proc<Func0>)
+// for odd child ids; both reach the same pthread_create, so the model does not distinguish them.
 #include "vh.hpp"
 #include <stdint.h>
 #define private public
@@ -55,8 +58,13 @@ static void callstr(const ScOp& o, char* b, int cap)
 extern "C" int vh_tid_of_arg(void* arg)
 {
   for(int i = 0; i < VS_MAXT; ++i) if(arg == (void*)&ctx[i]) return i;
+  if(started) for(int i = 0; i < VS_MAXT; ++i) if(th[i] && arg == (void*)&th[i]->func) return i;   // member-function form of start
   return -1;
 }
+
+static unsigned scenario(void* arg);
+struct Runner { Ctx* c; uint run() { return scenario(c); } };
+static Runner runner[VS_MAXT];
 
 static unsigned scenario(void* arg)
 {
@@ -88,7 +96,9 @@ static unsigned scenario(void* arg)
     case SEMTRY: v = sem->tryWait() ? 1 : 0; break;
     case START: {
       int ch = (int)o.arg;
-      v = (ch >= 0 && ch < VS_MAXT) ? (th[ch]->start((uint (*)(void*))scenario, &ctx[ch]) ? 1 : 0) : 0;
+      if(ch < 0 || ch >= VS_MAXT) v = 0;
+      else if(ch & 1) { runner[ch].c = &ctx[ch]; v = th[ch]->start(runner[ch], &Runner::run) ? 1 : 0; }
+      else v = th[ch]->start((uint (*)(void*))scenario, &ctx[ch]) ? 1 : 0;
       break; }
     case JOIN: {
       int ch = (int)o.arg;
